@@ -1,13 +1,14 @@
 """C05 -- every file written is a well-formed EMD 1.0 file."""
 import random
 from harness import tree as T, fileabs as FA, validator as V
-from harness.tree import run_all, emit, COQ_IMPORTS, CASETY, CHECKFN
+from harness.tree import COQ_IMPORTS, CASETY, CHECKFN
 from harness.props import c07, c09, c10, c11
+from harness import classes as K, core
 
 PROP = 'C05'
 TARGETS = ['Props/C05.vo', 'Corr/XTree.vo']
 PROPS_FILE = 'Props/C05.v'
-RULE = ('every successful save of: partial saves (C07 stream), append / append-over pairs and sequences with and without emdpath '
+RULE = ('trees holding downstream subclasses and composition (Custom) nodes, also Custom inside Custom (validator only); every successful save of: partial saves (C07 stream), append / append-over pairs and sequences with and without emdpath '
         '(C09 stream), multi-tree histories and list saves (C10 stream), all mode spellings over all kinds of old content (C11 '
         'stream), each under a random author/program setting; after each one an h5py-only validator checks header, root tags, node '
         'tags, Array data/dim datasets, metadata bundles, absence of scratch groups, and the package detector / version query must '
@@ -26,7 +27,31 @@ def cases(seed, tier):
     for c in out:
         c['program'] = rng.choice(['emdfile', 'py4DSTEM', 'my prog é', ''])
         c['user'] = rng.choice(['', 'ben', 'A. User', 'ü'])
+    # trees holding downstream subclasses and composition (Custom) nodes, also Custom inside Custom (this stream comes last: see emit)
+    for _ in range(60 if tier == 'quick' else 3000):
+        sc = K.gen_e2e(rng)
+        sc['placements'] = []; sc['want_slot'] = True; sc['kind'] = 'e2e'
+        out.append(sc)
     return out
+
+
+def _run_e2e(args):
+    c, scratch = args
+    try:
+        return K.run_e2e(c, scratch)
+    except BaseException:
+        import traceback
+        return [{'harness_error': traceback.format_exc()[-800:]}]
+
+
+def run_all(cases, scratch):
+    nt = sum(1 for c in cases if c.get('kind') != 'e2e')
+    return T.run_all(cases[:nt], scratch) + core.pmap(_run_e2e, [(c, scratch) for c in cases[nt:]])
+
+
+def emit(cases, results):
+    nt = sum(1 for c in cases if c.get('kind') != 'e2e')
+    return T.emit(cases[:nt], results[:nt])
 
 
 def all_names(case):
@@ -38,6 +63,16 @@ def all_names(case):
 
 
 def oracle(case, obs):
+    if case.get('kind') == 'e2e':
+        if obs.get('save_exc') or 'slot' not in obs:
+            return None
+        e = V.wf_emd(obs['slot'], 'emdfile', '', ())
+        if e:
+            key = e.split(':')[-1].strip().split(' ')[0:4]
+            return {'key': 'layout-' + '-'.join(key)[:40], 'what': 'a tree holding subclass / composition (Custom) nodes: ' + e}
+        if not obs.get('is_emd'):
+            return {'key': 'detector-disagrees', 'what': 'a tree holding subclass / composition (Custom) nodes: _is_EMD_file -> False'}
+        return None
     names = all_names(case)
     for j, (st, o) in enumerate(zip(case['steps'], obs)):
         if st['op'] != 'save' or o['raised']:
@@ -55,12 +90,14 @@ def oracle(case, obs):
 
 
 def pick_smallest(cases_, idxs):
-    return min(idxs, key=lambda i: len(cases_[i]['steps']))
+    return min(idxs, key=lambda i: len(cases_[i]['steps']) if 'steps' in cases_[i] else 100 + len(repr(cases_[i]['kids'])))
 
 
 def nontrivial(cases_, results):
     s = set()
     for c, r in zip(cases_, results):
+        if 'steps' not in c:
+            continue
         for st, o in zip(c['steps'], r):
             if st['op'] == 'save' and not o['raised'] and o.get('sha_before') is not None:
                 s.add(repr(c['tops'])[:200] + repr(st))
@@ -71,9 +108,20 @@ def samples(cases_, results):
     return [{'steps': c['steps'][:3], 'program': c['program'], 'user': c['user']} for c in cases_[:3]]
 
 
+def _attrs(nd):
+    out = list(nd['attrs'])
+    for x in nd['attrs'] + nd['kids']:
+        out += _attrs(x)
+    return out
+
+
 def distribution(cases_, results):
-    d = {'saves_ok': 0, 'saves_raised': 0, 'into_existing': 0, 'mode': {}}
+    d = {'saves_ok': 0, 'saves_raised': 0, 'into_existing': 0, 'mode': {}, 'custom_class_trees': 0, 'custom_inside_custom': 0}
     for c, r in zip(cases_, results):
+        if 'steps' not in c:
+            d['custom_class_trees'] += 1
+            d['custom_inside_custom'] += int("'kind': 'Custom'" in repr([a for k in c['kids'] for a in _attrs(k)]))
+            continue
         for st, o in zip(c['steps'], r):
             if st['op'] == 'save':
                 d['saves_raised' if o['raised'] else 'saves_ok'] += 1
